@@ -1256,27 +1256,26 @@ Lemma summary_final_lemma name r row :
   summarize_step name r None = Ok row ->
   sr_minsucc row = match s_minsucc r with Some b => b | None => false end /\
   sr_nerr row = s_nerr r /\ sr_nwarn row = s_nwarn r /\ sr_step row = None /\
+  sr_runtime_total row = s_runtime_total r /\
   match s_ofv_iter r with
   | None => sr_ofv row = s_ofv r
   | Some t => last_of_step (max_step t) t = Some (sr_ofv row)
+  end /\
+  match s_est_runtime_iter r with
+  | None => sr_est_runtime row = s_runtime_total r
+  | Some l => match s_ofv_iter r with
+              | Some t => nth_error l (max_step t - 1) = Some (sr_est_runtime row)
+              | None => nth_error (rev l) 0 = Some (sr_est_runtime row)
+              end
   end.
 Proof.
   unfold summarize_step. intro H.
-  destruct (s_ofv_iter r) as [t|] eqn:ET.
-  - destruct (last_of_step (max_step t) t) as [v|] eqn:EL.
-    + destruct (s_pe_iter r) as [pt|].
-      * destruct (last_of_step (max_step t) pt) as [prow|]; [|discriminate].
-        match type of H with match ?X with _ => _ end = _ => destruct X as [ps|e]; [|discriminate] end.
-        injection H as <-. cbn. repeat split.
-      * match type of H with match ?X with _ => _ end = _ => destruct X as [ps|e]; [|discriminate] end.
-        injection H as <-. cbn. repeat split.
-    + destruct (s_pe_iter r) as [pt|]; [destruct (last_of_step (max_step t) pt)|]; discriminate.
-  - destruct (s_pe_iter r) as [pt|].
-    + destruct (last_of_step 0 pt) as [prow|]; [|discriminate].
-      match type of H with match ?X with _ => _ end = _ => destruct X as [ps|e]; [|discriminate] end.
-      injection H as <-. cbn. repeat split.
-    + match type of H with match ?X with _ => _ end = _ => destruct X as [ps|e]; [|discriminate] end.
-      injection H as <-. cbn. repeat split.
+  destruct (s_ofv_iter r) as [t|] eqn:ET; destruct (s_est_runtime_iter r) as [l|] eqn:EL;
+    repeat match type of H with
+           | match (match ?X with _ => _ end) with _ => _ end = _ => destruct X eqn:?; try discriminate
+           | match ?X with _ => _ end = _ => destruct X eqn:?; try discriminate
+           end;
+    injection H as <-; cbn; repeat split; congruence.
 Qed.
 
 (* ---------- _categorize_parameters *)
@@ -1407,3 +1406,48 @@ Lemma round53_separates_lemma :
 Proof.
   apply sorted_map_injective. apply incr_sorted. vm_compute. reflexivity.
 Qed.
+
+(* ---------- summarize_errors *)
+Lemma ins_erow_perm x l : Permutation (ins_erow x l) (x :: l).
+Proof.
+  induction l as [|y tl IH]; cbn [ins_erow]; [reflexivity|].
+  destruct (erow_lt y x); [|reflexivity]. rewrite IH. apply perm_swap.
+Qed.
+Lemma summarize_errors_perm entries : Permutation (summarize_errors entries) (error_rows entries).
+Proof.
+  unfold summarize_errors. generalize (error_rows entries). intro l.
+  induction l as [|x tl IH]; cbn [fold_right]; [reflexivity|]. rewrite ins_erow_perm. constructor. exact IH.
+Qed.
+Lemma enum_from_spec {A} (l : list A) : forall i k x, nth_error l k = Some x -> In (i + k, x) (enum_from i l).
+Proof.
+  induction l as [|y tl IH]; intros i [|k] x H; cbn in *; try discriminate.
+  - injection H as <-. left. f_equal. lia.
+  - right. replace (i + S k) with (S i + k) by lia. apply IH. exact H.
+Qed.
+Lemma summarize_errors_complete_lemma entries name log k c m :
+  In (name, Some log) entries -> nth_error log k = Some (c, m) ->
+  In (mkErow name c k m) (summarize_errors entries).
+Proof.
+  intros He Hk. apply (Permutation_in _ (Permutation_sym (summarize_errors_perm entries))).
+  unfold error_rows. apply in_flat_map. exists (name, Some log). split; [exact He|]. cbn [snd fst].
+  apply in_map_iff. exists (k, (c, m)). split; [reflexivity|]. apply (enum_from_spec log 0 k (c, m) Hk).
+Qed.
+
+(* ---------- MFL penalty counting *)
+Lemma mfl_counts_sum m e :
+  elim_counts (mf_elim m) = Ok e ->
+  mfl_counts m = Ok ((fst (abs_counts (mf_abs m)) + (fst e + (fst (trans_counts (mf_trans m))
+                       + (fst (per_counts (mf_per m)) + fst (lag_counts (mf_lag m))))))%Z,
+                     (snd (abs_counts (mf_abs m)) + (snd e + (snd (trans_counts (mf_trans m))
+                       + (snd (per_counts (mf_per m)) + snd (lag_counts (mf_lag m))))))%Z).
+Proof. intro H. unfold mfl_counts. rewrite H. reflexivity. Qed.
+
+Lemma mfl_single_option_lemma ab el tr pe la a c e ce ssd cnts cd c0 pc on :
+  ab = Some ([a], c) -> el = Some ([e], ce) -> tr = Some (1, ssd, cnts, cd, c0) -> pe = Some (1, pc) -> la = Some (1, on) ->
+  mfl_counts (mkMfl ab el tr pe la) = Ok (0, 0)%Z.
+Proof. intros -> -> -> -> ->. reflexivity. Qed.
+
+Lemma lag_counts_def len on : len <> 1 -> lag_counts (Some (len, on)) = (1%Z, if on then 1%Z else 0%Z).
+Proof. intro H. unfold lag_counts. destruct (Nat.eqb_spec len 1); [contradiction|reflexivity]. Qed.
+Lemma per_counts_def len c0 : len <> 1 -> per_counts (Some (len, c0)) = ((Z.of_nat len - 1)%Z, c0).
+Proof. intro H. unfold per_counts. destruct (Nat.eqb_spec len 1); [contradiction|reflexivity]. Qed.
